@@ -89,6 +89,10 @@ def step (d : DState) (toks : List String) : DState × String :=
   | ["black", _, s, c] =>
     let (o, s') := blackChain d.s ((signers nCons (val s)).contains (sid nCons "op")) (Proto.natOf c)
     ({ d with s := s' }, showOutcome o)
+  | ["dryblack", _, s, c] =>
+    (d, showOutcome (blackChain d.s ((signers nCons (val s)).contains (sid nCons "op")) (Proto.natOf c)).1)
+  | ["drywhite", _, s, c] =>
+    (d, showOutcome (whiteChain d.s ((signers nCons (val s)).contains (sid nCons "op")) (Proto.natOf c)).1)
   | ["white", _, s, c] =>
     let (o, s') := whiteChain d.s ((signers nCons (val s)).contains (sid nCons "op")) (Proto.natOf c)
     ({ d with s := s' }, showOutcome o)
